@@ -32,10 +32,14 @@ committed to /repo.
 Result: 66 changes (2 waves x 11 properties x 3), 66 detected by a quick
 check - 65 by the check of the property they were written against, one
 (C19-w2-m3, a data race between concurrent traced executions of one Prog) by
-C12, whose statement it actually breaks. 22 of the 66 were MISSED when first
-tried; each miss was answered by widening the workload or adding a fault kind,
-never by special-casing the change, and the "detected by" column says which
-strengthening it took. The strengthenings, in one list:
+C12, whose statement it actually breaks. 16 of the 66 were MISSED when first
+tried (3 in wave 1, 13 in wave 2) and for 3 more (C19 wave 1) the workload was
+widened on reading the agent's description, before the first trial; each miss
+was answered by widening the workload or adding a fault kind, never by
+special-casing the change, and the "detected by" column says which
+strengthening it took. After each strengthening the check was re-run on the
+unchanged tree (and, for the timing-related one, under load) to make sure it
+stays silent there. The strengthenings, in one list:
 
 * C06: jump-limit programs with terms of mixed code size and both truth values
   of the left operand; Unmarshal targets whose fields match the generators
